@@ -114,6 +114,14 @@ def run_scenario(ctx, binary, mc_module, obs_module, name, relevant, nontrivial,
             if nontrivial(p):
                 ctx.nontrivial.add(vflib.digest([s["a"] for s in p["steps"]]))
         ctx.log("%s: %d states, %d transitions -> %d paths, %d steps" % (name, nstates, len(edges), len(paths), sum(len(p["steps"]) for p in paths)))
+        # every path needs its own node: above the cap a seeded sample of the path cover is replayed (TLC's check stays exhaustive)
+        cap = int(os.environ.get("VERIF_MAX_PATHS", "24000"))
+        if len(paths) > cap:
+            import random
+            keep = sorted(random.Random(ctx.seed).sample(range(len(paths)), cap))
+            ctx.extra.setdefault("replay_sampled", {})[name] = dict(paths_in_cover=len(paths), paths_replayed=cap)
+            ctx.assumptions.append("scenario %s: %d of the %d paths of the transition cover replayed (seeded sample)" % (name, cap, len(paths)))
+            paths = [paths[i] for i in keep]
         if paths:
             mid = paths[len(paths) // 2]
             ctx.sample(dict(scenario=name, actions=[s["a"] for s in mid["steps"]], expected_results=[s["r"] for s in mid["steps"]],
